@@ -109,7 +109,12 @@ class SFTPAttributes:
         if self._flags & self.FLAG_EXTENDED:
             count = msg.get_int()
             for i in range(count):
-                self.attr[msg.get_string()] = msg.get_string()
+                # the type (key) precedes the data (value) on the wire; read
+                # them in that order (a single subscript assignment evaluates
+                # its right-hand side first and would swap them)
+                key = msg.get_string()
+                val = msg.get_string()
+                self.attr[key] = val
 
     def _pack(self, msg):
         self._flags = 0
